@@ -97,6 +97,20 @@ type mapInfo struct {
 	vzero  string
 }
 
+// applyFn: the uninterpreted function standing for calls of pure function values with the
+// given argument and result sorts (`uses purefuncs`, apply(f, args) in contracts).
+func (te *TypeEnv) applyFn(argSorts []string, res string) string {
+	name := "fnapply_" + sanitize(strings.Join(argSorts, "_")+"__"+res)
+	if te.boxes == nil {
+		te.boxes = map[string]bool{}
+	}
+	if !te.boxes["applyfn:"+name] {
+		te.boxes["applyfn:"+name] = true
+		te.decls = append(te.decls, fmt.Sprintf("(declare-fun %s (Fn %s) %s)", name, strings.Join(argSorts, " "), res))
+	}
+	return name
+}
+
 func newTypeEnv() *TypeEnv {
 	return &TypeEnv{structs: map[string]*structInfo{}, maps: map[string]*mapInfo{}}
 }
